@@ -34,7 +34,7 @@ ASSUMPTIONS = [
     'EFLR sub-language: every object carries all template attributes (value, count+value or absent); no invariant attributes, no redundant/replacement sets',
 ]
 PROBES = ['channels_object_reused', 'negative_step', 'partial_after_full_same_count', 'full_after_partial_same_count', 'sample_lt_n', 'step_gt1', 'subset_excl_last', 'subset_excl_middle', 'dim2',
-          'interleaved_types', 'after_failed_populate', 'fetch_between', 'subset_unknown_name', 'empty_iflr', 'multi_lf', 'frame_number_gap', 'record_spans_vrs']
+          'interleaved_types', 'after_failed_populate', 'fetch_between', 'subset_unknown_name', 'empty_iflr', 'multi_lf', 'frame_number_gap', 'record_spans_vrs', 'first_channel_is_array', 'first_channel_gt_260_bytes']
 
 LogicalFile = Slice = ExceptionTotalDepth = None
 
@@ -90,7 +90,7 @@ def gen_ops(rng, model):
 
 def generate(seed, tier):
     rng = seeds.Rng(seed)
-    model = DL.gen_model(rng, max_frames=rng.pick([6, 20, 60]))
+    model = DL.gen_model(rng, max_frames=rng.pick([6, 20, 60]), waves=rng.chance(0.3))
     # 'reuse_channels': the caller keeps ONE set object per frame array and edits it in place between calls
     return {'world': 'dlis_logical', 'model': model, 'ops': gen_ops(rng, model), 'reuse_channels': rng.chance(0.35)}
 
@@ -172,6 +172,11 @@ def execute(scenario):
             if any(b - a != 1 for a, b in zip(nums, nums[1:])):
                 res.probe('frame_number_gap')
             ch0 = fr['channels'][0]
+            ch0_scalar = len(row_bits0 := fr['rows'][0]['bits'][0]) == 1 if fr['rows'] else True
+            if not ch0_scalar:
+                res.probe('first_channel_is_array')
+                if len(row_bits0) * DL.CODE_DTYPE[ch0['rep']]().itemsize > 260:
+                    res.probe('first_channel_gt_260_bytes')
             for k, row in enumerate(fr['rows']):
                 ent = xaxis[k]
                 xv = DL.ref_value(ch0['rep'], row['bits'][0][0])
@@ -179,7 +184,7 @@ def execute(scenario):
                 if ent.frame_number != row['fno']:
                     res.violation('index-frame-number', f'lf {li} ft {fi} frame {k}: index frame number {ent.frame_number}, recorded {row["fno"]}')
                     break
-                if float(ent.x_axis) != float(xv):
+                if ch0_scalar and float(ent.x_axis) != float(xv):
                     res.violation('index-x', f'lf {li} ft {fi} frame {k}: index X {ent.x_axis!r}, first channel value {xv!r}', rep=ch0['rep'])
                     break
                 pos = ent.logical_record_position
